@@ -112,6 +112,7 @@ func c16(r *mon.Run) {
 	tdocs := []interface{}{
 		docs.J(`{}`), docs.J(`[]`), docs.J(`null`), docs.J(`{"a":[]}`), docs.J(`{"a":{}}`), docs.J(`{"a":null,"b":null}`), docs.J(`{"a":[[]],"b":[]}`), docs.J(`{"a":[{}],"b":{}}`),
 		docs.J(`{"a":[1,2],"b":1}`), docs.J(`{"a":["x"],"b":"x"}`), docs.J(`{"a":[{"b":1},{"b":2}],"b":{"b":1}}`), docs.J(`{"a":{"b":[]},"b":[[],[]]}`),
+		docs.J(`{"a":["<","\u2028x","\u2029","é","\ud83d\ude00","\\u003c","\u0000","\u001f\u007f"],"b":"\u2028"}`), docs.J(`{"a":{"\u2028":"\u2029","<k>":["&"]},"b":{"b":"\u2028"}}`), docs.J(`{"a":[{"b":"\u2028","\u2029":1},{"b":"x\u2028y\u2029z"}],"b":["\u2028"]}`),
 	}
 	nt := len(templates) * len(tdocs)
 	emp := mon.Workload{Name: "empty-containers", N: nt,
